@@ -24,14 +24,29 @@ static size_t h_setup_buffers(void)
 {
         size_t cap = nondet_size();
         __CPROVER_assume(cap >= 6 && cap <= MAX_CAP);
+#ifdef FIX_SHARED
+        if (!FIX_SHARED) {   /* one job per layout */
+#else
         if (nondet_bool()) {
+#endif
                 /* separate event buffer */
                 size_t ucap = nondet_size();
+#ifdef FIX_SHARED
+                __CPROVER_assume(ucap >= 6 && ucap <= MAX_CAP);   /* the job that formats into the separate event buffer */
+#else
                 __CPROVER_assume(ucap <= MAX_CAP);
+#endif
                 h_desc.buf = malloc(cap);
                 h_desc.buf_size = cap;
+#if defined(FIX_SHARED) && !FIX_SHARED
+                /* (two heap objects of symbolic size exhaust the solver's memory in CBMC 6.11: the event buffer is a fixed
+                 * object here, its announced capacity stays symbolic and the frame check confines writes to it) */
+                { static uint8_t ubuf_fixed[MAX_CAP + 1]; h_desc.unsolicited_buf = ubuf_fixed; }
+#else
                 h_desc.unsolicited_buf = malloc(ucap + 1); /* +1: malloc(0) may be NULL */
+#endif
                 h_desc.unsolicited_buf_size = ucap;
+                __CPROVER_assume(h_desc.unsolicited_buf != NULL);   /* a failed allocation would silently turn this into the shared layout */
         } else {
                 /* shared buffer split in two halves; odd sizes leave one spare byte */
                 size_t extra = nondet_bool() ? 1 : 0;
